@@ -41,9 +41,9 @@ func ToV1(a model.AV) *dynamodb.AttributeValue {
 		}
 		return &dynamodb.AttributeValue{M: m}
 	case "SS":
-		return &dynamodb.AttributeValue{SS: aws.StringSlice(a.SS)}
+		return &dynamodb.AttributeValue{SS: freshStrings(a.SS)}
 	case "NS":
-		return &dynamodb.AttributeValue{NS: aws.StringSlice(a.SS)}
+		return &dynamodb.AttributeValue{NS: freshStrings(a.SS)}
 	case "BS":
 		b := make([][]byte, len(a.BS))
 		for i, e := range a.BS {
@@ -52,6 +52,17 @@ func ToV1(a model.AV) *dynamodb.AttributeValue {
 		return &dynamodb.AttributeValue{BS: b}
 	}
 	panic("ToV1: bad type " + a.T)
+}
+
+// freshStrings returns pointers to fresh copies (aws.StringSlice would point
+// into the model's own slice).
+func freshStrings(ss []string) []*string {
+	out := make([]*string, len(ss))
+	for i := range ss {
+		s := ss[i]
+		out[i] = &s
+	}
+	return out
 }
 
 // ToV1Item converts an item; nil gives nil.
